@@ -29,3 +29,224 @@ def gen_all_any(ex, g, which):
 
 def gen_to_list(ex, g):
     raise Unsupported("list(generator)")
+
+
+def listcomp(ex, node, env):
+    """[k for k, v in d.items() if cond(k, v)]  /  [k for k in d if cond(k)]  over a table d:
+    a duplicate-free list whose element set is {k in keys(d) | cond}; order unspecified."""
+    from .symexec import VDictItems, VDictKeys
+    c = ex.c
+    if len(node.generators) != 1:
+        raise Unsupported("nested list comprehension")
+    g = node.generators[0]
+    if not (isinstance(g.iter, ast.Call) and isinstance(g.iter.func, ast.Attribute) and g.iter.func.attr == "items"):
+        return listcomp_general(ex, node, env)
+    src = ex.ev(g.iter, env)
+    if isinstance(src, VDictItems):
+        d, items = src.d, True
+    elif isinstance(src, (VDict, VDictKeys)):
+        d, items = (src if isinstance(src, VDict) else src.d), False
+    else:
+        return listcomp_general(ex, node, env)
+    tgt = g.target
+    if items:
+        if not (isinstance(tgt, ast.Tuple) and len(tgt.elts) == 2 and all(isinstance(t, ast.Name) for t in tgt.elts)):
+            raise Unsupported("comprehension target")
+        kname, vname = tgt.elts[0].id, tgt.elts[1].id
+    else:
+        if not isinstance(tgt, ast.Name):
+            raise Unsupported("comprehension target")
+        kname, vname = tgt.id, None
+    if not (isinstance(node.elt, ast.Name) and node.elt.id == kname):
+        raise Unsupported("comprehension element other than the key")
+
+    def member(x):
+        env2 = dict(env)
+        env2[kname] = VVal(x)
+        if vname:
+            env2[vname] = ex.dict_value(d, x)
+        conds = [z3.Select(d.keys, x)]
+        old = ex.pure
+        ex.pure = True
+        try:
+            for cnd in g.ifs:
+                conds.append(ex.truth(ex.ev(cnd, env2)))
+        finally:
+            ex.pure = old
+        return z3.And(conds)
+
+    s = c.setof(member)
+    l = VList(None, c.card(s) if c.mode == "g" else c.fresh("lclen", z3.IntSort()), c.fresh("lc", c.SeqId))
+    l.content = s
+    l.distinct = True
+    return l
+
+
+# ------------------------------------------------------------------ general single-generator comprehensions
+def _abstract(ex, node, env, gen, body_fn):
+    """Evaluate the comprehension body once for a fresh element x0 of the source (pure mode:
+    no forking; partial operations record the condition under which they are defined).
+
+    Returns (S, distinct, x0, conds, needs, results) where S is the source's content set."""
+    c = ex.c
+    src = ex.ev(gen.iter, env)
+    S, distinct, kind, srcobj = ex.iter_source(src, node)
+    if kind == "seq":
+        raise Unsupported("comprehension over an abstract list")
+    x0 = c.val(c.fresh("cx", c.Id))
+    env2 = dict(env)
+
+    class _N:  # minimal For-like holder for bind_loop_var
+        target = gen.target
+    old_pure, old_needs = ex.pure, getattr(ex, "pure_needs", None)
+    ex.pure, ex.pure_needs = True, []
+    try:
+        ex.bind_loop_var(_N, kind, srcobj, x0, env2)
+        conds = [ex.truth(ex.ev(cnd, env2)) for cnd in gen.ifs]
+        results = body_fn(env2)
+        needs = list(ex.pure_needs)
+    finally:
+        ex.pure, ex.pure_needs = old_pure, old_needs
+    return S, distinct, x0, conds, needs, results, env2
+
+
+def _defined_or_raise(ex, S, x0, conds, needs):
+    """The comprehension raises when a partial operation in it is undefined for some element."""
+    c = ex.c
+    for need, exc in needs:
+        ok = c.forall(["id"], lambda x: z3.Implies(z3.Select(S, x), z3.substitute(need, (x0, x))))
+        if ex.pure:
+            ex.pure_needs.append((ok, exc))  # nested comprehension: the enclosing one decides
+        elif not ex.branch(ok):
+            raise SymRaise(exc, ex.where(ex.cur))
+
+
+def setcomp(ex, node, env):
+    c = ex.c
+    if len(node.generators) == 2:
+        return setcomp2(ex, node, env)
+    if len(node.generators) != 1:
+        raise Unsupported("set comprehension with %d generators" % len(node.generators))
+    S, distinct, x0, conds, needs, elt, env2 = _abstract(ex, node, env, node.generators[0], lambda e2: ex.ev(node.elt, e2))
+    _defined_or_raise(ex, S, x0, conds, needs)
+    et = ex.tid(elt)
+    guard = z3.And([z3.Select(S, x0)] + conds)
+    if et.eq(x0):
+        return VSet(c.setof(lambda x: z3.substitute(guard, (x0, x))))
+    return VSet(c.setof(lambda z: c.exists(["id"], lambda x: z3.And(z3.substitute(guard, (x0, x)), z == z3.substitute(et, (x0, x))))))
+
+
+def setcomp2(ex, node, env):
+    """{elt for a in A for b in B(a) if cond}: z in result <=> exists a in A, b in B(a): cond and z == elt."""
+    c = ex.c
+    g1, g2 = node.generators
+    src = ex.ev(g1.iter, env)
+    S1, d1, k1, o1 = ex.iter_source(src, node)
+    a0 = c.val(c.fresh("ca", c.Id))
+    b0 = c.val(c.fresh("cb", c.Id))
+    env2 = dict(env)
+
+    class _N1:
+        target = g1.target
+
+    class _N2:
+        target = g2.target
+    old_pure, old_needs = ex.pure, getattr(ex, "pure_needs", None)
+    ex.pure, ex.pure_needs = True, []
+    try:
+        ex.bind_loop_var(_N1, k1, o1, a0, env2)
+        c1 = [ex.truth(ex.ev(x, env2)) for x in g1.ifs]
+        src2 = ex.ev(g2.iter, env2)
+        S2, d2, k2, o2 = ex.iter_source(src2, node)
+        ex.bind_loop_var(_N2, k2, o2, b0, env2)
+        c2 = [ex.truth(ex.ev(x, env2)) for x in g2.ifs]
+        elt = ex.tid(ex.ev(node.elt, env2))
+        needs = list(ex.pure_needs)
+    finally:
+        ex.pure, ex.pure_needs = old_pure, old_needs
+    for need, exc in needs:
+        ok = c.forall(["id", "id"], lambda a, b: z3.Implies(
+            z3.And(z3.Select(S1, a), z3.substitute(z3.Select(S2, b0), (a0, a), (b0, b))), z3.substitute(need, (a0, a), (b0, b))))
+        if not ex.branch(ok):
+            raise SymRaise(exc, ex.where(ex.cur))
+    body = z3.And([z3.Select(S1, a0)] + c1 + [z3.Select(S2, b0)] + c2)
+    return VSet(c.setof(lambda z: c.exists(["id", "id"], lambda a, b: z3.And(
+        z3.substitute(body, (a0, a), (b0, b)), z == z3.substitute(elt, (a0, a), (b0, b))))))
+
+
+def dictcomp(ex, node, env):
+    """{k: v for k in src if cond} with the key being the loop variable: a finite map on a subset of src."""
+    c = ex.c
+    if len(node.generators) != 1:
+        raise Unsupported("dict comprehension with several generators")
+    S, distinct, x0, conds, needs, kv, env2 = _abstract(
+        ex, node, env, node.generators[0], lambda e2: (ex.ev(node.key, e2), ex.ev(node.value, e2)))
+    _defined_or_raise(ex, S, x0, conds, needs)
+    k, v = kv
+    if not ex.tid(k).eq(x0):
+        raise Unsupported("dict comprehension whose key is not the loop variable")
+    guard = z3.And([z3.Select(S, x0)] + conds)
+    keys = c.setof(lambda x: z3.substitute(guard, (x0, x)))
+    if isinstance(v, (VInt, VBool)):
+        vt = ex.tint(v)
+        arr = c.mapof(lambda x: z3.substitute(vt, (x0, x)), z3.K(c.Id, z3.IntVal(0)))
+        return VDict("dict", "int", keys, {"v": arr})
+    if isinstance(v, VSet):
+        st = v.get()
+        arr = c.mapof(lambda x: z3.substitute(st, (x0, x)), c.fresh("dcj", c.MapSet))
+        d = VDict("dict", "set", keys, {"v": arr})
+        d.fresh_values = v.home is None  # values are copies (not the table's own set objects)
+        return d
+    vt = ex.as_val(v)
+    arr = c.mapof(lambda x: z3.substitute(vt, (x0, x)), c.fresh("dcv", c.MapVal))
+    return VDict("dict", "val", keys, {"v": arr})
+
+
+def listcomp_general(ex, node, env):
+    """[elt for x in src if cond]: tracked as its element set (+ duplicate-free flag)."""
+    c = ex.c
+    if len(node.generators) != 1:
+        raise Unsupported("list comprehension with several generators")
+    S, distinct, x0, conds, needs, elt, env2 = _abstract(ex, node, env, node.generators[0], lambda e2: ex.ev(node.elt, e2))
+    _defined_or_raise(ex, S, x0, conds, needs)
+    guard = z3.And([z3.Select(S, x0)] + conds)
+    try:
+        et = ex.tid(elt)
+    except Unsupported:
+        et = None
+    if et is not None and et.eq(x0):
+        s = c.setof(lambda x: z3.substitute(guard, (x0, x)))
+        l = VList(None, c.card(s) if distinct else c.fresh("lclen", z3.IntSort()), c.fresh("lc", c.SeqId))
+        l.content = s
+        l.distinct = distinct
+        return l
+    if et is None:
+        raise Unsupported("list comprehension of non-value elements")
+    s = c.setof(lambda z: c.exists(["id"], lambda x: z3.And(z3.substitute(guard, (x0, x)), z == z3.substitute(et, (x0, x)))))
+    l = VList(None, c.fresh("lclen", z3.IntSort()), c.fresh("lc", c.SeqId))
+    l.content = s
+    l.distinct = False
+    return l
+
+
+def gen_count(ex, g):
+    """sum(1 for x in S if cond) / sum(cond(x) for x in S) over a duplicate-free source: the number of
+    elements satisfying the condition."""
+    c = ex.c
+    node = g.node
+    if len(node.generators) != 1:
+        raise Unsupported("sum over nested generator")
+    elt = node.elt
+    is_one = isinstance(elt, ast.Constant) and elt.value == 1
+    S, distinct, x0, conds, needs, r, env2 = _abstract(ex, node, g.env, node.generators[0],
+                                                     lambda e2: None if is_one else ex.ev(elt, e2))
+    if not distinct:
+        raise Unsupported("sum over a source that may repeat elements")
+    _defined_or_raise(ex, S, x0, conds, needs)
+    extra = []
+    if not is_one:
+        if not isinstance(r, VBool):
+            raise Unsupported("sum of non-boolean, non-constant terms")
+        extra = [r.term]
+    guard = z3.And([z3.Select(S, x0)] + conds + extra)
+    return VInt(c.card(c.setof(lambda x: z3.substitute(guard, (x0, x)))))
